@@ -48,6 +48,11 @@ def gen(ctx):
     for i in range(ctx.n(10, 120)):
         spec = M.random_spec(rng, ["SIMUS"])
         cases.append({"kind": "method", "spec": spec, "dm": M.in_domain_dm(rng, spec, max_m=6, max_n=4, ties=0.3)})
+    # SIMUS on richer problems (several maximise criteria, no ties): there the two SIMUS scores order the alternatives differently
+    for i in range(ctx.n(14, 160)):
+        spec = {"name": "SIMUS", "rank_by": 2 if i % 3 else 1}
+        dm = M.in_domain_dm(rng, spec, min_m=4, max_m=8, min_n=3, max_n=5, ties=0.0, dups=0.0, mix="max" if i % 2 else None)
+        cases.append({"kind": "method", "spec": spec, "dm": dm})
     # result construction
     if ctx.thorough:
         for L in range(1, 6):
@@ -100,6 +105,7 @@ def observe(case):
         if kind == "method":
             dm = G.mkdm(case["dm"])
             dec = M.build(case["spec"])
+            M.warmup(dec, dm, case["dm"], case["spec"])
             try:
                 res = dec.evaluate(dm)
             except Exception as e:
